@@ -61,6 +61,10 @@ Theorem C15_kosaraju : S_kosaraju.
 Proof. exact kosaraju_correct. Qed.
 Print Assumptions C15_kosaraju.
 
+Theorem C15_transpose_ok : S_transpose_ok.
+Proof. exact transpose_is_transpose. Qed.
+Print Assumptions C15_transpose_ok.
+
 (** the executable finishing-order test (evaluated by the driver on [top_sort g]) is sound *)
 Theorem C15_finish_orderedb_sound : S_finish_orderedb_sound.
 Proof. exact finish_orderedb_sound. Qed.
